@@ -519,6 +519,7 @@ def run_property(pid, tier, only, jobs, keep, seed):
     exit_code = 0
     violations = 0
     results = {}
+    printed_known = set()
     try:
         try:
             make_scratch(slot, prop)
@@ -556,7 +557,9 @@ def run_property(pid, tier, only, jobs, keep, seed):
                 if kn is not None:
                     r["verdict"] = "KNOWN-FINDING"
                     for k in kn:
-                        log("KNOWN-FINDING: property=%s %s [%s: %s]" % (pid, k["what"], h["name"], k["check"]))
+                        if k["id"] not in printed_known:
+                            printed_known.add(k["id"])
+                            log("KNOWN-FINDING: property=%s %s: %s" % (pid, k["id"], k["what"]))
                     continue
                 # replay before reporting; failures that are only built-in checks of Kani's library models
                 # (free/memcpy preconditions, unsupported-construct markers) have no concrete playback
